@@ -39,7 +39,7 @@ async fn publish(config: &warg_client::Config, name: &str, version: &str, bytes:
     entries.push(PublishEntry::Release { version: version.parse().unwrap(), content: digest });
     let name: PackageName = name.parse()?;
     let id = client.publish_with_info(&PrivateKey::decode(SIGNING_KEY.to_string()).unwrap(), PublishInfo { name: name.clone(), head: None, entries }).await?;
-    client.wait_for_publish(&name, &id, Duration::from_secs(1)).await?;
+    client.wait_for_publish(&name, &id, Duration::from_secs(60)).await?;
     Ok(())
 }
 
@@ -76,9 +76,9 @@ fn main() {
         let dir = root.join(format!("w{workers}"));
         std::fs::create_dir_all(&dir).unwrap();
         let res: Result<(), String> = rt.block_on(async {
-            let (task, shutdown, config) = serve(&dir).await.map_err(|e| format!("cannot start the local registry: {e:#}"))?;
+            let (task, shutdown, config) = serve(&dir).await.map_err(|e| format!("INFRA: cannot start the local registry: {e:#}"))?;
             let mut seen = std::collections::HashSet::new();
-            for (n, v, b) in &releases { publish(&config, n, v, b.clone(), seen.insert(*n)).await.map_err(|e| format!("cannot publish {n}@{v}: {e:#}"))?; }
+            for (n, v, b) in &releases { publish(&config, n, v, b.clone(), seen.insert(*n)).await.map_err(|e| format!("INFRA: cannot publish {n}@{v}: {e:#}"))?; }
             // every ordered list of distinct pool entries up to maxk
             let mut lists: Vec<Vec<usize>> = vec![];
             let mut frontier: Vec<Vec<usize>> = vec![vec![]];
@@ -94,8 +94,10 @@ fn main() {
                 let cdir = dir.join(format!("client{requests}"));
                 let mut cfg = config.clone();
                 cfg.registries_dir = Some(cdir.join("registries")); cfg.content_dir = Some(cdir.join("content")); cfg.namespace_map_path = Some(cdir.join("namespaces"));
-                let resolver = RegistryPackageResolver::new_with_config(None, &cfg, None).await.map_err(|e| format!("cannot create the resolver: {e:#}"))?;
-                let got = resolver.resolve(&keys).await;
+                let resolver = RegistryPackageResolver::new_with_config(None, &cfg, None).await.map_err(|e| format!("INFRA: cannot create the resolver: {e:#}"))?;
+                let mut got = resolver.resolve(&keys).await;
+                // a transport hiccup of the local server under load is not a verdict: retry, and only a persistent failure counts
+                for _ in 0..3 { if matches!(got, Err(Error::RegistryUpdateFailure { .. }) | Err(Error::RegistryDownloadFailure { .. })) { tokio::time::sleep(Duration::from_millis(300)).await; got = resolver.resolve(&keys).await; } }
                 requests += 1;
                 let show = format!("request {:?} ({workers} worker thread(s))", l.iter().map(|k| format!("{}{}", POOL[*k].0, POOL[*k].1.map(|v| format!("@{v}")).unwrap_or_default())).collect::<Vec<_>>());
                 let failing = l.iter().position(|k| expected(*k).is_err());
@@ -114,7 +116,7 @@ fn main() {
                             }
                         }
                         if m.len() != l.len() { return Err(format!("{show}: {} keys requested, {} returned", l.len(), m.len())); }
-                        if samples.len() < 2 && l.len() == 3 { samples.push(format!("{show}: every key got its own release")); }
+                        if samples.len() < 2 && l.len() == maxk { samples.push(format!("{show}: every key got its own release")); }
                     }
                     (Ok(_), Some(i)) => return Err(format!("{show}: key #{i} does not exist in the registry ({}), but the request succeeded", expected(l[i]).unwrap_err())),
                     (Err(e), Some(i)) => {
@@ -130,7 +132,12 @@ fn main() {
             let _ = task.await;
             Ok(())
         });
-        if let Err(e) = res { println!("C20-BOUNDED VIOLATION: {e}"); let _ = std::fs::remove_dir_all(&root); std::process::exit(1); }
+        if let Err(e) = res {
+            let _ = std::fs::remove_dir_all(&root);
+            // trouble with the local registry itself is not a verdict about wac: exit 2 (undecided)
+            if let Some(m) = e.strip_prefix("INFRA: ") { println!("C20-REGISTRY could not run: {m}"); std::process::exit(2); }
+            println!("C20-BOUNDED VIOLATION: {e}"); std::process::exit(1);
+        }
     }
     let _ = std::fs::remove_dir_all(&root);
     if samples.is_empty() { samples.push("(none)".into()); }
